@@ -32,7 +32,7 @@ import (
 
 type quietLog struct{}
 
-func (quietLog) Info(args ...interface{})               {}
+func (quietLog) Info(args ...interface{})              {}
 func (quietLog) Infof(msg string, args ...interface{}) {}
 
 type bkNode struct {
